@@ -258,6 +258,11 @@ func validateBatchFileCounts(batchFiles *batchFiles) error {
 
 		expectedDeltaCount := coreCreateNum + coreRecoverNum + provisionalUpdateNum
 
+		if expectedDeltaCount == 0 {
+			// no operation of the batch carries a delta: the provisional index file (and its chunk file) is superfluous
+			return errors.New("provisional index file URI should be empty if there are no create, recover and update operations")
+		}
+
 		if expectedDeltaCount != len(batchFiles.Chunk.Deltas) {
 			return fmt.Errorf("number of create+recover+update operations[%d] doesn't match number of deltas[%d]",
 				expectedDeltaCount, len(batchFiles.Chunk.Deltas))
